@@ -22,6 +22,7 @@ def build_plain(eng, p, module, factory, args, kws=None, n_sources=1):
     res = eng.call(q, op, [src], {})
     assert len(res) == 1
     q, obs = res[0]
+    q.ghost['calls_before_subscribe'] = len(q.calls)          # anything created before this point is shared by all subscriptions
     observer = Host('observer', chan=OUT, name='observer')
     res = eng.call(q, obs.subscribe, [observer, Host('opaque', name='scheduler')], {})
     assert len(res) == 1
